@@ -13,7 +13,7 @@ Typing of the VALUES of `Sem` (C03: soundness of the reference semantics w.r.t. 
   of the types of `Γ` instantiated by `θ` (`θ` maps the type parameters of the enclosing generic
   function to the closed types of the current activation: Core is generic, `Sem` runs the generic
   body on concrete values).
-* `okE S P Γ K e` — the decidable fragment of `sem_preserves_types_partial`, and at the same time the
+* `okE S P rf Γ K e` — the decidable fragment of `sem_preserves_types_partial`, and at the same time the
   places where `Wt` alone is too weak for the induction (each is a check the driver evaluates on every
   real Core dump):
   - a callee is one of the printing / conversion builtins, or any fragment expression of function type
@@ -139,6 +139,14 @@ def polyOk (f : String) (argTys : List Ty) (ty : Ty) : Bool :=
   | "vec_len", [.vec _] => tyBeq ty (.int 32 true)
   | _, _ => false
 
+/-- the reference builtins (admitted only in the store-typed version of the theorem, `rf = true`) -/
+def refOk (f : String) (argTys : List Ty) (ty : Ty) : Bool :=
+  match f, argTys with
+  | "ref", [e] => tyBeq ty (.ref e)
+  | "ref_get", [.ref e] => tyBeq ty e
+  | "ref_set", [.ref e, e'] => tyBeq e e' && tyBeq ty .unit
+  | _, _ => false
+
 /-- a top-level function used as a value (or as a callee) at the annotation `tf` -/
 def fnValOk (P : Prog) (f : String) (tf : Ty) : Bool :=
   match P.findFn f with
@@ -215,53 +223,54 @@ def rowOk (S : Sig) (P : Prog) (r : String × String × String × String) : Bool
 def implsOk (S : Sig) (P : Prog) : Bool := namesOk S && P.impls.all (rowOk S P)
 
 mutual
-def okE (S : Sig) (P : Prog) (Γ : TyEnv) (K : Know) : Expr → Bool
+def okE (S : Sig) (P : Prog) (rf : Bool) (Γ : TyEnv) (K : Know) : Expr → Bool
   | .var x ty => (lookupVar Γ x).isSome || fnValOk P x ty
   | .prim p => primOk p
   | .tag _ _ => false
-  | .constr c ty args => ctorTyOk c ty && okL S P Γ K args
-  | .tuple _ items => okL S P Γ K items
-  | .array _ items => okL S P Γ K items
-  | .closure _ ps body => okE S P (bindAll ps Γ) [] body
-  | .letE x v b => okE S P Γ K v && okE S P ((x, getTy v) :: Γ) (dropK x K) b
+  | .constr c ty args => ctorTyOk c ty && okL S P rf Γ K args
+  | .tuple _ items => okL S P rf Γ K items
+  | .array _ items => okL S P rf Γ K items
+  | .closure _ ps body => okE S P rf (bindAll ps Γ) [] body
+  | .letE x v b => okE S P rf Γ K v && okE S P rf ((x, getTy v) :: Γ) (dropK x K) b
   | .matchE _ s arms d =>
-    okE S P Γ K s && okA S P Γ K (scrutLocal Γ s) arms &&
-      (match d with | some d => okE S P Γ K d | none => true)
-  | .ite c t e => okE S P Γ K c && okE S P Γ K t && okE S P Γ K e
-  | .while c b => okE S P Γ K c && okE S P Γ K b
+    okE S P rf Γ K s && okA S P rf Γ K (scrutLocal Γ s) arms &&
+      (match d with | some d => okE S P rf Γ K d | none => true)
+  | .ite c t e => okE S P rf Γ K c && okE S P rf Γ K t && okE S P rf Γ K e
+  | .while c b => okE S P rf Γ K c && okE S P rf Γ K b
   | .go _ => false
   | .cget c _ _ e =>
-    okE S P Γ K e && ctorTyOk c (getTy e) &&
+    okE S P rf Γ K e && ctorTyOk c (getTy e) &&
       (match c with
        | .struct _ => true
        | .enum _ _ ci => match e with | .var x _ => lookupK K x == some ci | _ => false)
-  | .un _ _ e => okE S P Γ K e
-  | .bin _ _ l r => okE S P Γ K l && okE S P Γ K r
+  | .un _ _ e => okE S P rf Γ K e
+  | .bin _ _ l r => okE S P rf Γ K l && okE S P rf Γ K r
   | .call ty f args =>
-    okL S P Γ K args &&
+    okL S P rf Γ K args &&
       ((match f with
         | .var fn tf => (lookupVar Γ fn).isNone && builtinOk P fn tf && tyBeq tf (.func (getTys args) ty)
         | _ => false) ||
        (match f with
-        | .var fn _ => (lookupVar Γ fn).isNone && (P.findFn fn).isNone && polyOk fn (getTys args) ty
+        | .var fn _ => (lookupVar Γ fn).isNone && (P.findFn fn).isNone &&
+            (polyOk fn (getTys args) ty || (rf && refOk fn (getTys args) ty))
         | _ => false) ||
-       (okE S P Γ K f && tyBeq (getTy f) (.func (getTys args) ty)))
+       (okE S P rf Γ K f && tyBeq (getTy f) (.func (getTys args) ty)))
   | .toDyn _ _ _ _ => false
   | .dynCall _ _ _ _ _ => false
   | .traitCall tr m ty recv args =>
-    okE S P Γ K recv && okL S P Γ K args &&
+    okE S P rf Γ K recv && okL S P rf Γ K args &&
       ((concreteTy (getTy recv) && dispatchOk P tr m (getTy recv) (getTys args) ty) || implsOk S P)
-  | .proj _ _ e => okE S P Γ K e
-def okL (S : Sig) (P : Prog) (Γ : TyEnv) (K : Know) : List Expr → Bool
+  | .proj _ _ e => okE S P rf Γ K e
+def okL (S : Sig) (P : Prog) (rf : Bool) (Γ : TyEnv) (K : Know) : List Expr → Bool
   | [] => true
-  | e :: es => okE S P Γ K e && okL S P Γ K es
-def okA (S : Sig) (P : Prog) (Γ : TyEnv) (K : Know) (sv : Option String) : List Arm → Bool
+  | e :: es => okE S P rf Γ K e && okL S P rf Γ K es
+def okA (S : Sig) (P : Prog) (rf : Bool) (Γ : TyEnv) (K : Know) (sv : Option String) : List Arm → Bool
   | [] => true
   | .mk lhs body :: rest =>
     (match lhs with
-     | .constr (.enum _ _ idx) _ _ => okE S P Γ (learn K sv idx) body
-     | .prim _ => okE S P Γ K body
-     | _ => false) && okA S P Γ K sv rest
+     | .constr (.enum _ _ idx) _ _ => okE S P rf Γ (learn K sv idx) body
+     | .prim _ => okE S P rf Γ K body
+     | _ => false) && okA S P rf Γ K sv rest
 end
 
 mutual
@@ -282,7 +291,7 @@ inductive VT (S : Sig) (P : Prog) : Val → Ty → Prop
   /-- a closure: its code is `Wt`-consistent and in the fragment under a typing `Γ` of the captured
       environment, at the instantiation `θ` of the activation that built it -/
   | closure {θ : Subst} {ρ : Env} {Γ : TyEnv} {pts : List (String × Ty)} {body : Expr} :
-      ET S P θ ρ Γ → errs S (bindAll pts Γ) body = [] → okE S P (bindAll pts Γ) [] body = true →
+      ET S P θ ρ Γ → errs S (bindAll pts Γ) body = [] → okE S P false (bindAll pts Γ) [] body = true →
       VT S P (.closure (pts.map (·.1)) body ρ) (.func (substTys θ (pts.map (·.2))) (substTy θ (getTy body)))
   /-- a top-level function as a value, at an instance of its signature -/
   | fn {name : String} {g : Fn} (θ : Subst) :
@@ -300,34 +309,34 @@ inductive ET (S : Sig) (P : Prog) : Subst → Env → TyEnv → Prop
       VT S P v (substTy θ t) → ET S P θ ρ Γ → ET S P θ ((x, v) :: ρ) ((x, t) :: Γ)
 end
 
-def okFn (S : Sig) (P : Prog) (f : Fn) : Bool :=
-  wtFn S f && okE S P (bindAll f.params []) [] f.body
+def okFn (S : Sig) (P : Prog) (rf : Bool) (f : Fn) : Bool :=
+  wtFn S f && okE S P rf (bindAll f.params []) [] f.body
 
 /-- the whole-program hypothesis of `sem_preserves_types_partial`: the signature is the program's,
     every function is consistent (`Wt.wtFn`, what `./check C03` evaluates) and lies in the fragment -/
-def okProg (S : Sig) (P : Prog) : Bool :=
-  P.fns.all (okFn S P)
+def okProg (S : Sig) (P : Prog) (rf : Bool := false) : Bool :=
+  P.fns.all (okFn S P rf)
 
 /-! ### reports only: first node kind outside the fragment -/
 
 mutual
-partial def whyE (S : Sig) (P : Prog) (Γ : TyEnv) (K : Know) : Expr → Option String
+partial def whyE (S : Sig) (P : Prog) (rf : Bool) (Γ : TyEnv) (K : Know) : Expr → Option String
   | .var x ty => if (lookupVar Γ x).isSome || fnValOk P x ty then none else some ("global-as-value:" ++ x)
   | .prim p => if primOk p then none else some "literal-width"
   | .tag _ _ => some "tag"
-  | .constr c ty args => if ctorTyOk c ty then whyL S P Γ K args else some "constr:kind"
-  | .tuple _ items => whyL S P Γ K items
-  | .array _ items => whyL S P Γ K items
-  | .closure _ ps body => whyE S P (bindAll ps Γ) [] body
-  | .letE x v b => (whyE S P Γ K v).orElse fun _ => whyE S P ((x, getTy v) :: Γ) (dropK x K) b
+  | .constr c ty args => if ctorTyOk c ty then whyL S P rf Γ K args else some "constr:kind"
+  | .tuple _ items => whyL S P rf Γ K items
+  | .array _ items => whyL S P rf Γ K items
+  | .closure _ ps body => whyE S P rf (bindAll ps Γ) [] body
+  | .letE x v b => (whyE S P rf Γ K v).orElse fun _ => whyE S P rf ((x, getTy v) :: Γ) (dropK x K) b
   | .matchE _ s arms d =>
-    (whyE S P Γ K s).orElse fun _ => (whyA S P Γ K (scrutLocal Γ s) arms).orElse fun _ =>
-      match d with | some d => whyE S P Γ K d | none => none
-  | .ite c t e => (whyE S P Γ K c).orElse fun _ => (whyE S P Γ K t).orElse fun _ => whyE S P Γ K e
-  | .while c b => (whyE S P Γ K c).orElse fun _ => whyE S P Γ K b
+    (whyE S P rf Γ K s).orElse fun _ => (whyA S P rf Γ K (scrutLocal Γ s) arms).orElse fun _ =>
+      match d with | some d => whyE S P rf Γ K d | none => none
+  | .ite c t e => (whyE S P rf Γ K c).orElse fun _ => (whyE S P rf Γ K t).orElse fun _ => whyE S P rf Γ K e
+  | .while c b => (whyE S P rf Γ K c).orElse fun _ => whyE S P rf Γ K b
   | .go _ => some "go"
   | .cget c _ _ e =>
-    (whyE S P Γ K e).orElse fun _ =>
+    (whyE S P rf Γ K e).orElse fun _ =>
       if !ctorTyOk c (getTy e) then some "cget:kind" else
       match c with
       | .struct _ => none
@@ -335,13 +344,14 @@ partial def whyE (S : Sig) (P : Prog) (Γ : TyEnv) (K : Know) : Expr → Option 
         match e with
         | .var x _ => if lookupK K x == some ci then none else some "cget:variant-not-established"
         | _ => some "cget:not-on-a-variable"
-  | .un _ _ e => whyE S P Γ K e
-  | .bin _ _ l r => (whyE S P Γ K l).orElse fun _ => whyE S P Γ K r
+  | .un _ _ e => whyE S P rf Γ K e
+  | .bin _ _ l r => (whyE S P rf Γ K l).orElse fun _ => whyE S P rf Γ K r
   | .call ty f args =>
-    (whyL S P Γ K args).orElse fun _ =>
+    (whyL S P rf Γ K args).orElse fun _ =>
       let direct := match f with
         | .var fn tf => (lookupVar Γ fn).isNone &&
-            ((builtinOk P fn tf && tyBeq tf (.func (getTys args) ty)) || ((P.findFn fn).isNone && polyOk fn (getTys args) ty))
+            ((builtinOk P fn tf && tyBeq tf (.func (getTys args) ty)) ||
+              ((P.findFn fn).isNone && (polyOk fn (getTys args) ty || (rf && refOk fn (getTys args) ty))))
         | _ => false
       if direct then none else
       (match f with
@@ -349,12 +359,12 @@ partial def whyE (S : Sig) (P : Prog) (Γ : TyEnv) (K : Know) : Expr → Option 
          if (lookupVar Γ fn).isNone && (P.findFn fn).isNone then some ("call:builtin:" ++ fn)
          else if (lookupVar Γ fn).isNone && !fnValOk P fn tf then some "call:not-the-instance-matchTy-finds"
          else none
-       | _ => whyE S P Γ K f).orElse fun _ =>
+       | _ => whyE S P rf Γ K f).orElse fun _ =>
         if !tyBeq (getTy f) (.func (getTys args) ty) then some "call:annotation-vs-arguments" else none
   | .toDyn _ _ _ _ => some "todyn"
   | .dynCall _ _ _ _ _ => some "dyncall"
   | .traitCall tr m ty recv args =>
-    (whyE S P Γ K recv).orElse fun _ => (whyL S P Γ K args).orElse fun _ =>
+    (whyE S P rf Γ K recv).orElse fun _ => (whyL S P rf Γ K args).orElse fun _ =>
       if implsOk S P then none
       else if !concreteTy (getTy recv) then
         some ("traitcall:receiver-" ++ tyClass (getTy recv) ++ (if !namesOk S then ":names" else
@@ -363,22 +373,22 @@ partial def whyE (S : Sig) (P : Prog) (Γ : TyEnv) (K : Know) : Expr → Option 
           | none => ""))
       else if !dispatchOk P tr m (getTy recv) (getTys args) ty then some "traitcall:dispatch-row-signature"
       else none
-  | .proj _ _ e => whyE S P Γ K e
-partial def whyL (S : Sig) (P : Prog) (Γ : TyEnv) (K : Know) : List Expr → Option String
+  | .proj _ _ e => whyE S P rf Γ K e
+partial def whyL (S : Sig) (P : Prog) (rf : Bool) (Γ : TyEnv) (K : Know) : List Expr → Option String
   | [] => none
-  | e :: es => (whyE S P Γ K e).orElse fun _ => whyL S P Γ K es
-partial def whyA (S : Sig) (P : Prog) (Γ : TyEnv) (K : Know) (sv : Option String) : List Arm → Option String
+  | e :: es => (whyE S P rf Γ K e).orElse fun _ => whyL S P rf Γ K es
+partial def whyA (S : Sig) (P : Prog) (rf : Bool) (Γ : TyEnv) (K : Know) (sv : Option String) : List Arm → Option String
   | [] => none
   | .mk lhs body :: rest =>
     (match lhs with
-     | .constr (.enum _ _ idx) _ _ => whyE S P Γ (learn K sv idx) body
-     | .prim _ => whyE S P Γ K body
-     | _ => some "arm-head").orElse fun _ => whyA S P Γ K sv rest
+     | .constr (.enum _ _ idx) _ _ => whyE S P rf Γ (learn K sv idx) body
+     | .prim _ => whyE S P rf Γ K body
+     | _ => some "arm-head").orElse fun _ => whyA S P rf Γ K sv rest
 end
 
-def whyProg (S : Sig) (P : Prog) : Option String :=
+def whyProg (S : Sig) (P : Prog) (rf : Bool := false) : Option String :=
   P.fns.findSome? fun f =>
     if !wtFn S f then some "wt"
-    else whyE S P (bindAll f.params []) [] f.body
+    else whyE S P rf (bindAll f.params []) [] f.body
 
 end Goml.ValTy
